@@ -3,6 +3,8 @@ import random
 
 from vlib import session as S
 from vlib.monitors import StatMonitor
+from vlib import corpus, mutate
+from vlib.world import frame
 
 PROPERTY = 'C18'
 LEVEL = 'exploration'
@@ -22,6 +24,11 @@ REST = ('R_UPD', 'R_WD', 'R_RR', 'R_BIN', 'R_RR6', 'R_RRVPN', 'R_UPDBAD', 'R_UPD
 ALPHA = S.ALPHABET_C01 + ['OPEN_nocap'] + S.ODD_LENGTH
 
 
+def register_fuzz(fuzz):
+    for k, fr in fuzz.items():
+        S.MSGS[k] = (fr, dict(kind='FUZZ'))
+
+
 def plan(tier, seed):
     shards = []
     d0, d = DEPTH[tier]
@@ -31,6 +38,10 @@ def plan(tier, seed):
     nshard = 4 if tier == 'quick' else 16
     for i in range(nshard):
         shards.append(dict(kind='walk', seed=seed * 1000 + i, n=n // nshard, length=length))
+    # walks whose peer messages are well-framed mutations of the unit-test corpus (hostile bodies: decoded, reported as
+    # malformed, ignored or answered with a NOTIFICATION - each frame is still one received message of its type)
+    for i in range(nshard):
+        shards.append(dict(kind='walk', fuzz=120 if tier == 'quick' else 1500, seed=seed * 1000 + 500 + i, n=n // nshard, length=length))
     return shards
 
 
@@ -62,10 +73,21 @@ def run_shard(sh):
             res['samples'] = [dict(events=list(s)) for s in list(ex.seen.values())[-2:]]
     else:
         rng = random.Random(sh['seed'])
+        alpha = list(ALPHA)
+        weights = {'TICK': 5, 'ACCEPT': 4, 'REFUSE': 1, 'STOP': 0.3, 'START': 1.0, 'OPEN': 5, 'KA': 5,
+                   'R_UPD': 3, 'R_RR': 3, 'R_BIN': 3, 'R_WD': 3, 'UPD1': 3, 'RR': 3}
+        fuzz = {}
+        if sh.get('fuzz'):
+            msgs = corpus.messages()
+            for j in range(sh['fuzz']):
+                t, b = rng.choice(msgs)
+                b = mutate.random_mutation(b, rng)[:4077] if rng.random() < 0.8 else b
+                fuzz['FZ%d' % j] = frame(t, b)
+            register_fuzz(fuzz)
+            alpha = ['OPEN', 'KA', 'OPEN_h9', 'NOTI_CEASE', 'BADLEN'] + sorted(fuzz)
+            weights.update(OPEN=20, KA=20)
         for i in range(sh['n']):
-            r = S.random_walk(cfg, [StatMonitor], ALPHA, rng, sh['length'], multi=False, rest=REST,
-                              weights={'TICK': 5, 'ACCEPT': 4, 'REFUSE': 1, 'STOP': 0.3, 'START': 1.0, 'OPEN': 5, 'KA': 5,
-                                       'R_UPD': 3, 'R_RR': 3, 'R_BIN': 3, 'R_WD': 3, 'UPD1': 3, 'RR': 3})
+            r = S.random_walk(cfg, [StatMonitor], alpha, rng, sh['length'], multi=False, rest=REST, weights=weights)
             note(r)
             res['evaluations'] += 1
             res['distinct'].append('walk|%d|%d' % (sh['seed'], i))
@@ -74,6 +96,12 @@ def run_shard(sh):
         res['counters'] = dict(walks=sh['n'], **stats)
     res['maxima'].update({'max_' + k: v for k, v in totals.items()})
     res['violations'] = list(viol.values())
+    if sh.get('fuzz'):
+        res['counters']['fuzzed_frames_in_alphabet'] = sh['fuzz']
+        for v in res['violations']:
+            rp = v.get('replay')
+            if isinstance(rp, dict) and 'events' in rp:
+                rp['fuzz'] = {S.parse_event(e)[0]: S.MSGS[S.parse_event(e)[0]][0].hex() for e in rp['events'] if S.parse_event(e)[0].startswith('FZ')}
     return res
 
 
@@ -89,5 +117,6 @@ def floors(m, tier):
 
 
 def replay(rep):
+    register_fuzz({k: bytes.fromhex(v) for k, v in rep.get('fuzz', {}).items()})
     r = S.run_seq(rep['cfg'], rep['events'], [StatMonitor])
     return r.collect()
